@@ -98,6 +98,7 @@ func c04Gen(rt *rapid.T) stormCase {
 	}
 	c.Steps = genStormSteps(rt, c.Hosts, 4)
 	c.Warn = rapid.IntRange(0, 3).Draw(rt, "backendwarns") == 0
+	stormFastIdle(rt, &c)
 	return c
 }
 
